@@ -250,12 +250,25 @@ def foreign_state(ctx, rng, chart):
     cs = chart._chartSpace
     sers = cs.xpath("//c:ser")
     what = rng.choice(["permute", "permute", "date1904", "both", "combo", "combo", "docorder", "emptyplot"])
+    if len(cs.xpath("//c:plotArea/c:barChart")) == 1 and len(sers) >= 2 and rng.random() < 0.6:
+        what = "combo"      # the only charts a combination can be made of: use them
     if what == "combo":
         from harness.props.c08 import make_combo
         if make_combo(rng, chart):
             ctx.count("foreign-state-combination-chart")
             if rng.random() < 0.5 and doc_order(rng, cs):
                 ctx.count("foreign-state-document-order")
+            if rng.random() < 0.7:
+                # the chart's highest c:order / c:idx need not sit in its LAST plot (the first series turned into the line)
+                sers = cs.xpath("//c:ser")
+                for tag in ("c:idx", "c:order"):
+                    els = [x.xpath("./" + tag)[0] for x in sers]
+                    vals = [e.get("val") for e in els]
+                    k = rng.randrange(1, len(vals))
+                    vals = vals[k:] + vals[:k]
+                    for e, v in zip(els, vals):
+                        e.set("val", v)
+                ctx.count("foreign-state-combination-chart-rotated-orders")
         return
     if what == "docorder":
         if doc_order(rng, cs):
